@@ -38,6 +38,8 @@ fn main() {
         ("r_before", vec![midnight - 7200, midnight - 3600, midnight - 1], vec![Tag { name: "v1.2.3".into(), target: 1, annotated: false }], Head::Branch("main".into()), WorkTree::Clean),
         ("r_after", vec![midnight - 2, midnight - 1, midnight], vec![Tag { name: "v1.2.3".into(), target: 2, annotated: true }, Tag { name: "v1.2.0".into(), target: 2, annotated: false }, Tag { name: "v1.2.1-rc.1".into(), target: 2, annotated: false }, Tag { name: "v1.0.0".into(), target: 0, annotated: false }], Head::Branch("main".into()), WorkTree::Clean),
         ("r_dirty", vec![midnight - 2, midnight - 1, midnight + 1], vec![Tag { name: "1.0.0rc1".into(), target: 0, annotated: false }], Head::Branch("feature/x".into()), WorkTree::Untracked),
+        // commit dates in the future (a committer clock running ahead, or a pinned SOURCE_DATE_EPOCH): still just data
+        ("r_future", vec![4_070_908_800 - 86400, 4_070_908_800, 4_070_908_800 + 3600], vec![Tag { name: "v1.2.3".into(), target: 1, annotated: true }], Head::Branch("main".into()), WorkTree::Clean),
         // detached HEAD: git reports this state through (translatable) messages on some code paths
         ("r_detached", vec![midnight - 7200, midnight - 3600, midnight - 1], vec![Tag { name: "v1.2.3".into(), target: 0, annotated: false }], Head::Detached(1), WorkTree::Clean),
     ] {
@@ -116,7 +118,7 @@ fn main() {
     // git repositories: -C absolute from every cwd; relative -C and plain cwd compared separately below
     for (name, r) in &repos {
         let dir = r.dir.to_string_lossy().to_string();
-        for extra in [vec![], vec!["--schema", "calver"], vec!["--output-format", "pep440"], vec!["--output-format", "zerv"], vec!["--schema", "calver-base-prerelease-post-dev-context", "--output-format", "pep440"]] {
+        for extra in [vec![], vec!["--schema", "calver"], vec!["--output-format", "pep440"], vec!["--output-format", "zerv"], vec!["--schema", "calver-base-prerelease-post-dev-context", "--output-format", "pep440"], vec!["--output-template", "{{ bumped_timestamp }}/{{ last_timestamp }}"]] {
             let mut args = a(&["version", "-C", &dir]); args.extend(extra.iter().map(|s| s.to_string()));
             jobs.push(Job { args, stdin: None, cwds: any_cwd.clone(), clock_dependent: name == "r_dirty", expect: None, label: format!("git/{name}") });
         }
@@ -141,6 +143,9 @@ fn main() {
         }
         for tz in &tzs { for lc in &lcs { for cwd in &job.cwds { for extra in [false, true] { for rep in 0..repeats {
             if *tz == "UTC" && *lc == "C" && !extra && rep == 0 && cwd == &job.cwds[0] { continue; }
+            // quick tier: the repetition dimension (run-to-run nondeterminism) is crossed with cwd and extra environment
+            // only, under the first time zone and the first two locales
+            if quick && rep > 0 && !(*tz == tzs[0] && (*lc == lcs[0] || *lc == lcs[1])) { continue; }
             st.inc("process_runs");
             let o = run_env(job, tz, lc, cwd, extra, now);
             if o != reference {
